@@ -67,7 +67,7 @@ def obs_term(res):
     return "XPanic"
 
 
-def run(cases, go, workdir, limit_ops=4000):
+def run(cases, go, workdir, limit_ops=4000, drop_kinds=""):
     """cases: list of case dicts; go: dict id -> parsed go lines. Returns (n_cases, n_ops, mismatches list, error)."""
     lines = ["From Coq Require Import ZArith List.", "From GB Require Import Model Instances CrossCheck.", "Import ListNotations.",
              "Definition cases : list xcase := ["]
@@ -82,7 +82,8 @@ def run(cases, go, workdir, limit_ops=4000):
             final = tree_term(seqcheck.parse_snap(g[-1]["snap"]))
         except Exception:
             continue
-        ops = "; ".join("(%s, %s)" % (op_term(o), obs_term(l["res"])) for o, l in zip(c["ops"], g))
+        # operations outside the property's projection are dropped (scans are read-only, so the state is unaffected)
+        ops = "; ".join("(%s, %s)" % (op_term(o), obs_term(l["res"])) for o, l in zip(c["ops"], g) if o[0] not in drop_kinds)
         items.append("  {| xid := %d; xorder := %d; xops := [%s]; xfinal := %s |}" % (idx, c["order"], ops, final))
         total += len(c["ops"])
         used.append(c["id"])
